@@ -1,5 +1,6 @@
 import TantivyModel.Proofs.Columnar.Mapping
 import TantivyModel.Proofs.Columnar.LinearColumn
+import TantivyModel.Proofs.Columnar.CompactGaps
 import TantivyModel.Proofs.Columnar.StackMissing
 import TantivyModel.Proofs.Columnar.Writer
 import TantivyModel.Proofs.Columnar.OptRankSelect
@@ -136,6 +137,59 @@ theorem C08_codec_choice_irrelevant (vals : List Nat) (hv : ∀ v ∈ vals, v < 
     | some b => rw [h] at henc; cases henc; exact linear_column_roundtrip vals hv hlen b h
   · cases henc; exact blockwise_column_roundtrip vals hv hlen
   · cases henc
+
+/-! ## compact space (u128 columns: IP addresses) -/
+
+/-- the facts behind both compact-space theorems: `vals` = the sorted, deduplicated values of the
+column; `sel` = whatever non-empty selection of the candidate blanks (below the minimum, between
+consecutive values, above the maximum) the cost heuristic of `get_compact_space` makes, in the
+order `finish` sorts them. Then the covered space is well formed and covers every value. -/
+theorem C08_compact_space_covers (vals : List Nat) (hs : vals.Pairwise (· < ·)) (hmax : ∀ v ∈ vals, v ≤ U128MAX)
+    (sel : List (Nat × Nat)) (hsub : sel.Sublist (allGaps vals)) (hne : sel ≠ []) :
+    ValidRanges (coveredOf sel) ∧ ∀ v ∈ vals, Covered (coveredOf sel) v := by
+  obtain ⟨hout, hvalid⟩ := allGaps_spec vals hs hmax
+  have hvb := validBlanks_sublist hsub hvalid
+  have hcov : coveredOf sel = coveredFrom 0 sel := by
+    unfold coveredOf
+    cases sel with
+    | nil => exact absurd rfl hne
+    | cons b bs => rfl
+  rw [hcov]
+  exact ⟨coveredFrom_valid 0 sel hvb, fun v hv => coveredFrom_covers 0 sel hvb v (Nat.zero_le _) (hmax v hv)
+    (fun b hb => hout b (hsub.subset hb) v hv)⟩
+
+/-- compact-space codec: whichever blanks are removed, every row of the column (values in any order,
+with repetitions) reads back exactly — `compact_to_u128 (unpack i) = vals[i]` — also with the
+footer bytes following the bit-packed compact values -/
+theorem C08_compact_space_exact (vals : List Nat) (hs : vals.Pairwise (· < ·)) (hmax : ∀ v ∈ vals, v ≤ U128MAX)
+    (sel : List (Nat × Nat)) (hsub : sel.Sublist (allGaps vals)) (hne : sel ≠ [])
+    (hamp : amplitude (coveredOf sel) < 2 ^ 64)
+    (col : List Nat) (hcol : ∀ v ∈ col, v ∈ vals) (rest : Bytes) (hrest : ∀ b ∈ rest, b < 256)
+    (i : Nat) (hi : i < col.length) :
+    fromCompact (coveredOf sel)
+      (unpackGet (computeNumBits (amplitude (coveredOf sel))) i (compactPayload (coveredOf sel) col ++ rest)) = col[i] := by
+  obtain ⟨hv, hc⟩ := C08_compact_space_covers vals hs hmax sel hsub hne
+  exact compact_codec_exact _ hv hamp col (fun v hvm => hc v (hcol v hvm)) rest hrest i hi
+
+/-- the mapping value ↦ compact value is defined on every value, inverted by `compact_to_u128`, and
+strictly monotone — so comparisons and range lookups on compact values are comparisons on the
+original u128 values -/
+theorem C08_compact_space_order_preserving (vals : List Nat) (hs : vals.Pairwise (· < ·))
+    (hmax : ∀ v ∈ vals, v ≤ U128MAX) (sel : List (Nat × Nat)) (hsub : sel.Sublist (allGaps vals)) (hne : sel ≠ []) :
+    (∀ v ∈ vals, ∃ c, toCompact (coveredOf sel) v = some c ∧ 1 ≤ c ∧ c ≤ amplitude (coveredOf sel)
+        ∧ fromCompact (coveredOf sel) c = v) ∧
+    (∀ v1 v2 c1 c2, v1 < v2 → toCompact (coveredOf sel) v1 = some c1 → toCompact (coveredOf sel) v2 = some c2 → c1 < c2) := by
+  obtain ⟨hv, hc⟩ := C08_compact_space_covers vals hs hmax sel hsub hne
+  refine ⟨?_, fun v1 v2 c1 c2 hlt h1 h2 => toCompactFrom_mono _ hv 1 v1 v2 c1 c2 hlt h1 h2⟩
+  intro v hvm
+  obtain ⟨c, h1, h2, h3, h4⟩ := toCompactFrom_spec _ hv 1 v (hc v hvm)
+  exact ⟨c, h1, h2, by omega, h4⟩
+
+example : allGaps [5, 6, 100, 2 ^ 128 - 1] = [(0, 4), (7, 99), (101, 2 ^ 128 - 2)] := by decide
+example : coveredOf [(0, 4), (101, 2 ^ 128 - 2)] = [(5, 100), (2 ^ 128 - 1, 2 ^ 128 - 1)]
+    ∧ toCompact [(5, 100), (2 ^ 128 - 1, 2 ^ 128 - 1)] 100 = some 96
+    ∧ toCompact [(5, 100), (2 ^ 128 - 1, 2 ^ 128 - 1)] (2 ^ 128 - 1) = some 97
+    ∧ fromCompact [(5, 100), (2 ^ 128 - 1, 2 ^ 128 - 1)] 97 = 2 ^ 128 - 1 := by decide
 
 /-! ## optional index -/
 
